@@ -120,6 +120,8 @@ def run(tier):
     locks.pairing(la, res, "T2.pairing")
     locks.waits(la, GUARDED, res, "T2.wait-loop", reader_summaries={"ZSTDMT_doesOverlapWindow": 1})
     locks.must_signal(la, res, "T2.must-signal", SIGNALS)
+    locks.broadcast_for_private_predicates(prog, res, "T2.broadcast-for-private-predicate", fns, worker_entries=("ZSTDMT_compressionJob",))
+    res.need("T2.broadcast-for-private-predicate", 2)
     lock_order(la, res)
     res.need("T1.guarded-by", 40)
     res.need("T2.pairing", 16)
